@@ -1,4 +1,5 @@
-import AvroModel.Lemmas.SchemaGen
+import AvroModel.Lemmas.SchemaValid
+import AvroModel.Lemmas.CodecBuilds
 /-!
 # C15 — Schema generation is total, deterministic and follows the documented mapping
 
@@ -289,5 +290,144 @@ example : schemaForType SReg.empty TEnv.empty 5 [] (.ptr (.slice .string)) = .ok
 example : schemaForType SReg.empty TEnv.empty 5 [] (.ptr (.map .string .bool)) = .ok (mapSchema (.prim "boolean")) := by rfl
 example : schemaForType SReg.empty TEnv.empty 5 [] (.ptr (.ptr (.int 32))) = .ok (nullableSchema (.prim "long")) := by rfl
 example : schemaForType SReg.empty TEnv.empty 5 [] (.ptr .time) = .ok (nullableSchema (.prim "string")) := by rfl
+
+/-! ## Structural validity -/
+
+/-- **Unions never nest directly**: in every schema generated for any type, under any registry whose
+registered schemas are themselves flat, every union `u` that occurs anywhere has no union among its
+branches. -/
+theorem no_nested_union (sreg : SReg) (env : TEnv) (hreg : RegSchemasFlat sreg) (fuel : Nat) (ps : List GoType)
+    (T : GoType) (S : Schema) (h : schemaForType sreg env fuel ps T = .ok S)
+    (u : Schema) (hu : Sub u S) (hut : u.type = "union") : ∀ b ∈ u.union, b.type ≠ "union" := by
+  have hok := unionsOk_sub (gen_unionsOk sreg env hreg fuel ps T S h).1 hu
+  obtain ⟨t, o, br⟩ := u
+  obtain ⟨x, hx, h1, _⟩ := unionsOk_top hok hut
+  intro b hb
+  simp only [Schema.union, hx, List.mem_cons, List.mem_nil_iff, or_false] at hb
+  rcases hb with rfl | rfl
+  · decide
+  · exact h1
+
+/-- **Unions never repeat a branch**: every union that occurs is exactly `[null, X]`, null first, with
+`X` not null (and not a union): two branches of different kinds. -/
+theorem no_dup_branch (sreg : SReg) (env : TEnv) (hreg : RegSchemasFlat sreg) (fuel : Nat) (ps : List GoType)
+    (T : GoType) (S : Schema) (h : schemaForType sreg env fuel ps T = .ok S)
+    (u : Schema) (hu : Sub u S) (hut : u.type = "union") :
+    ∃ x, u.union = [.prim "null", x] ∧ x.type ≠ "null" ∧ x.type ≠ "union" := by
+  have hok := unionsOk_sub (gen_unionsOk sreg env hreg fuel ps T S h).1 hu
+  obtain ⟨t, o, br⟩ := u
+  obtain ⟨x, hx, h1, h2⟩ := unionsOk_top hok hut
+  exact ⟨x, hx, h2, h1⟩
+
+/-- the library's own registrations satisfy the hypothesis -/
+example : RegSchemasFlat SReg.empty := by intro id s h; simp [SReg.empty, assocLookup] at h
+
+/-- non-vacuity: `struct{ P **time.Time `json:",omitempty"` }` has a union, and it is flat -/
+example : schemaForType SReg.empty TEnv.empty 6 []
+    (.struct "T" "p" [.mk "P" true ",omitempty" "" (.ptr (.ptr .time))]) =
+    .ok (recordSchema "T" "p" [.mk "P" (nullableSchema (.prim "string"))]) := by rfl
+
+/-- A generated schema is never the bare `null` schema (so wrapping it gives no `[null, null]`). -/
+theorem never_null (sreg : SReg) (env : TEnv) (hreg : RegSchemasFlat sreg) (fuel : Nat) (ps : List GoType)
+    (T : GoType) (S : Schema) (h : schemaForType sreg env fuel ps T = .ok S) : S.type ≠ "null" :=
+  (gen_unionsOk sreg env hreg fuel ps T S h).2
+
+/-! ### Every named type is defined once (known finding D22) -/
+
+/-- full statement: the named records of a generated schema are pairwise distinct -/
+def named_once_full : Prop :=
+  ∀ (sreg : SReg) (fuel : Nat) (T : GoType) (S : Schema),
+    RegSchemasNameless sreg → schemaForType sreg TEnv.empty fuel [] T = .ok S → S.recordNames.Nodup
+
+/-- `type Inner struct{A int64; B string}; type Twice struct{X Inner; Y Inner}` -/
+def innerT : GoType := .struct "Inner" "main" [.mk "A" true "" "" (.int 64), .mk "B" true "" "" .string]
+def twiceT : GoType := .struct "Twice" "main" [.mk "X" true "" "" innerT, .mk "Y" true "" "" innerT]
+
+/-- **Counter-witness (D22)**: the struct type used in two positions is defined twice. -/
+theorem named_once_witness : ¬ named_once_full := by
+  intro h
+  have hgen : schemaForType SReg.empty TEnv.empty 4 [] twiceT =
+      .ok (recordSchema "Twice" "main" [.mk "X" (recordSchema "Inner" "main" [.mk "A" (.prim "long"), .mk "B" (.prim "string")]),
+        .mk "Y" (recordSchema "Inner" "main" [.mk "A" (.prim "long"), .mk "B" (.prim "string")])]) := by rfl
+  have := h SReg.empty 4 twiceT _ (by intro id s h; simp [SReg.empty, assocLookup] at h) hgen
+  revert this
+  simp [recordNames_record, SchemaField.recordNamesList, recordNames_prim]
+
+/-- **Partial**: when no named struct type occurs twice in the type tree (and the registered schemas
+define no named records), every named record of the generated schema is defined once. -/
+theorem named_once_partial (sreg : SReg) (hreg : RegSchemasNameless sreg) (fuel : Nat) (ps : List GoType)
+    (T : GoType) (S : Schema) (hT : T.structNames.Nodup)
+    (h : schemaForType sreg TEnv.empty fuel ps T = .ok S) : S.recordNames.Nodup :=
+  List.Nodup.sublist (gen_recordNames sreg hreg fuel ps T S h) hT
+
+/-- non-vacuity of `named_once_partial` -/
+example : (GoType.struct "Once" "main" [.mk "X" true "" "" innerT, .mk "N" true "" "" (.int 32)]).structNames.Nodup := by
+  simp [GoType.structNames, GoField.structNamesList, innerT]
+
+/-! ### Record field names are unique (known finding D24) -/
+
+/-- full statement: every record of a generated schema has pairwise distinct field names -/
+def field_names_unique_full : Prop :=
+  ∀ (sreg : SReg) (fuel : Nat) (T : GoType) (S : Schema),
+    RegSchemasFieldsUnique sreg → schemaForType sreg TEnv.empty fuel [] T = .ok S → S.FieldsUnique
+
+/-- `struct{ A int64 `json:"x"`; B int64 `json:"x"` }` -/
+def dupJsonT : GoType := .struct "Dup" "main" [.mk "A" true "x" "" (.int 64), .mk "B" true "x" "" (.int 64)]
+
+/-- **Counter-witness (D24)**: two fields with the same JSON name give a record with two fields `x`. -/
+theorem field_names_unique_witness : ¬ field_names_unique_full := by
+  intro h
+  have hgen : schemaForType SReg.empty TEnv.empty 3 [] dupJsonT =
+      .ok (recordSchema "Dup" "main" [.mk "x" (.prim "long"), .mk "x" (.prim "long")]) := by rfl
+  have := h SReg.empty 3 dupJsonT _ (by intro id s h; simp [SReg.empty, assocLookup] at h) hgen
+  revert this
+  simp [recordSchema, Schema.FieldsUnique, SchemaObject.fields, SchemaField.name]
+
+/-- **Partial**: when the JSON names of the included fields are distinct in every struct of the type
+tree (and the registered schemas have unique field names), so are the field names of every record. -/
+theorem field_names_unique_partial (sreg : SReg) (hreg : RegSchemasFieldsUnique sreg) (fuel : Nat) (ps : List GoType)
+    (T : GoType) (S : Schema) (hT : T.JsonNamesDistinct)
+    (h : schemaForType sreg TEnv.empty fuel ps T = .ok S) : S.FieldsUnique :=
+  gen_fieldsUnique sreg hreg fuel ps T S hT h
+
+/-- non-vacuity of `field_names_unique_partial` -/
+example : innerT.JsonNamesDistinct := by
+  simp only [innerT, GoType.JsonNamesDistinct, GoField.JsonNamesDistinctList, and_true]
+  decide
+
+/-! ## A codec is built for the generated schema -/
+
+/-- **The generated schema is accepted by codec construction** for the same Go type, for the fragment
+`GoType.Supported` (bool, int16/32/64, floats, string, []byte, slices, string-keyed maps, pointers,
+structs with distinct JSON names — excluded fields may have any type), under every codec registry:
+from some fuel on `buildCodec` succeeds, for either value of the `omit` flag.
+Outside the fragment a codec may be refused with an error (int8, Go arrays, named string keys are
+examples the correspondence run exhibits); that is the "or refused with an error" of the property. -/
+theorem codec_builds (reg : Reg) (sreg : SReg) (env : TEnv) (hflat : RegSchemasFlat sreg) (T : GoType)
+    (hT : T.Supported) (m : Nat) (ps : List GoType) (S : Schema) (h : schemaForType sreg env m ps T = .ok S) :
+    ∃ N, ∀ fuel, N ≤ fuel → ∀ oe, ∃ c, buildCodec reg fuel S (some T) oe = .ok c := by
+  obtain ⟨⟨N, hN⟩, _⟩ := codec_builds_aux reg sreg env hflat (T.depth + 1) T (Nat.lt_succ_self _) m ps S hT h
+  exact ⟨N, fun fuel hf oe => hN oe fuel hf⟩
+
+/-- `struct{ A int32; B *[]string `json:"b,omitempty"`; C map[string]*float32; d chan int }` -/
+def supportedT : GoType :=
+  .struct "S" "p" [.mk "A" true "" "" (.int 32), .mk "B" true "b,omitempty" "" (.ptr (.slice .string)),
+    .mk "C" true "" "" (.map .string (.ptr .float32)), .mk "d" false "" "" .chan]
+
+/-- non-vacuity of `codec_builds`: the type is in the fragment, a schema is generated … -/
+example : supportedT.Supported := by
+  simp only [supportedT, GoType.Supported, GoField.SupportedList]
+  refine ⟨by decide, Or.inr (Or.inr (Or.inl trivial)), Or.inr (Or.inr trivial), Or.inr ⟨trivial, trivial⟩,
+    Or.inl (by decide), trivial⟩
+example : ∃ S, schemaForType SReg.empty TEnv.empty 6 [] supportedT = .ok S := ⟨_, rfl⟩
+
+/-- `codec_total`: in the model `buildCodec` has no other outcome than a codec or an error (the Go
+function has no `panic` path of its own: every nil check precedes the dereference it guards — that
+is what the correspondence run exercises on every generated schema). -/
+theorem codec_total (reg : Reg) (fuel : Nat) (S : Schema) (T : GoType) (oe : Bool) :
+    (∃ c, buildCodec reg fuel S (some T) oe = .ok c) ∨ (∃ e, buildCodec reg fuel S (some T) oe = .error e) := by
+  cases buildCodec reg fuel S (some T) oe with
+  | ok c => exact Or.inl ⟨c, rfl⟩
+  | error e => exact Or.inr ⟨e, rfl⟩
 
 end Avro.C15
